@@ -215,9 +215,23 @@ def m2(ctx, rep, T):
     tops = [a_ for c in f['calls'] if c.get('f') in ('insert', 'extend', 'entry', 'or_insert', 'BTreeSet::from') for a_ in c.get('args', [])]
     scans = [t for t in tops if isinstance(t, dict) and scans_whole_table(t)]
     ok = bool(scans)
+    data_p = next((p_['name'] for p_ in f['params'] if 'ParsedData' in str(p_.get('ty') or '')), 'data')
+
+    def is_current_crate(x):
+        x = vt.strip(x)
+        while isinstance(x, dict) and x.get('k') in ('ref', 'deref', 'paren'):
+            x = vt.strip(x.get('v'))
+        return isinstance(x, dict) and x.get('k') == 'atom' and x.get('root') == data_p and (x.get('path') or [None])[-1] == 'crate_name'
     for t in scans:
         j = json.dumps(t)
-        if not (re.search(r'"op": "!=".{0,2500}crate_name|crate_name.{0,2500}"op": "!="', j) and re.search(r'"(find|find_map|filter|flat_map|filter_map)"', j)):
+        # some `<crate of the candidate> != <crate being generated>` test inside the scan: the right-hand side must be the
+        # current crate itself (`data.crate_name`, also when handed to a helper), not e.g. the crate the import names
+        def from_scan(x):
+            # a key of the crate table being searched: an element of an iteration over `all_types`
+            return any(y.get('k') == 'elem' and any(z.get('k') == 'atom' and z.get('root') == 'all_types' and not z.get('path') for z in vt.walk(y.get('of') or {})) for y in vt.walk(x))
+        excl = [x for x in vt.walk(t) if x.get('k') == 'op' and x.get('op') == '!=' and len(x.get('args', [])) == 2
+                and ((is_current_crate(x['args'][0]) and from_scan(x['args'][1])) or (is_current_crate(x['args'][1]) and from_scan(x['args'][0])))]
+        if not (excl and re.search(r'"(find|find_map|filter|flat_map|filter_map)"', j)):
             ok = False
     rep.check(ok, 'M2', 'no-self-import:fallback', 're-export fallback never picks the current crate', "the re-export fallback of used_imports searches all crates without excluding the current one (`k != &data.crate_name`): a module-qualified reference to a type of the same crate makes the generated file import from itself", site)
     # prefix agreement between imported names and definitions (Kotlin)
